@@ -78,20 +78,20 @@ type sim struct {
 	durable       int // commits known to be durable (lower bound)
 
 	// bookkeeping
-	k0           int // I/O count after creation
-	ioTotal      int
-	stepIdx      int
-	opCount      int
-	commits      int // committed write transactions acknowledged by the real store
-	blockWrites  int // block-file writes seen during the current commit
-	inCommit     bool
-	commitBlocks bool
-	commitPrune  bool
-	rolled       bool
-	prunedFile   bool
-	dumpCache    map[int]string
-	nonTrivial   bool
-	sawRollover  bool
+	k0              int // I/O count after creation
+	ioTotal         int
+	stepIdx         int
+	opCount         int
+	commits         int // committed write transactions acknowledged by the real store
+	blockWrites     int // block-file writes seen during the current commit
+	inCommit        bool
+	commitBlocks    bool
+	commitPrune     bool
+	rolled          bool
+	prunedFile      bool
+	dumpCache       map[int]string
+	nonTrivial      bool
+	sawRollover     bool
 	hung            bool
 	flushedInCommit bool
 	layerCache      map[string]bool // bucket path + key committed since the last flush
@@ -532,11 +532,11 @@ func (o *txOp) String() string {
 // comparison
 
 type txCtx struct {
-	mtx       database.Tx
-	writable  bool
-	pruned    bool            // a PruneBlocks ran in this transaction
-	pendingB  map[int]bool    // blocks stored in this transaction
-	reversal  bool            // set by cursor compare
+	mtx      database.Tx
+	writable bool
+	pruned   bool         // a PruneBlocks ran in this transaction
+	pendingB map[int]bool // blocks stored in this transaction
+	reversal bool         // set by cursor compare
 }
 
 // failureItem reports whether a real-side item only signals "I could not"
